@@ -1,5 +1,7 @@
 """Shared type descriptors for the contracts."""
 from pyvc.ty import *  # noqa
+import z3
+from pyvc.engine import Val
 
 StableNode = ObjT("StableNode", contig_id=STR, start=INT, end=INT)
 StableNode.ctor = ["contig_id", "start", "end"]
@@ -19,5 +21,14 @@ IMAP = MapT(INT, INT)
 Edge = TupleT(STR, INT, INT)  # (neighbor id, side of the neighbor: 0 start / 1 end, overlap)
 Node = ObjT("Node", id=STR, seq=STR, seq_len=INT, start=SetT(Edge), end=SetT(Edge), visited=BOOL, tags=DictT(STR, TagVal))
 EdgeKey = TupleT(STR, INT, STR, INT)
-GFAT = ObjT("GFA", nodes=DictT(STR, Node), edge_tags=DictT(EdgeKey, ListT(STR)))
-GFAT.dunder = {"__getitem__": "nodes", "__contains__": "nodes"}
+C2N = DictT(STR, ListT(STR))  # defaultdict(list)
+C2N.default = lambda eng: Val(ListT(STR).empty(), ListT(STR))
+CONTIGS = DictT(STR, OptT(INT))  # defaultdict(lambda: None)
+CONTIGS.default = lambda eng: Val(OptT(INT).none(), OptT(INT))
+GFAT = ObjT("GFA", nodes=DictT(STR, Node), edge_tags=DictT(EdgeKey, ListT(STR)), contig_to_nodes=C2N, contigs=CONTIGS)
+# Node(identifier): the constructor model; node_init_lemma (contracts/gfa_c.py) re-reads Node.__init__ on every run and compares
+Node.ctor = ["id"]
+Node.defaults = {"seq": lambda eng: Val(z3.IntVal(str_code("")), STR), "seq_len": lambda eng: Val(z3.IntVal(0), INT),
+                 "start": lambda eng: Val(SetT(Edge).empty(), SetT(Edge)), "end": lambda eng: Val(SetT(Edge).empty(), SetT(Edge)),
+                 "visited": lambda eng: Val(z3.BoolVal(False), BOOL), "tags": lambda eng: Val(DictT(STR, TagVal).empty(), DictT(STR, TagVal))}
+GFAT.dunder = {"__getitem__": "nodes", "__contains__": "nodes", "__len__": "nodes"}
